@@ -15,12 +15,13 @@ fn main() {
 			if args.len() < 4 {
 				usage()
 			}
-			let tier = match std::env::var("VERIF_TIER").ok().as_deref().unwrap_or(args[3].as_str()) {
+			// the command line names the tier; VERIF_TIER is only a fallback
+			let tier = match args[3].as_str() {
 				"quick" => Tier::Quick,
 				"thorough" => Tier::Thorough,
-				_ => match args[3].as_str() {
-					"quick" => Tier::Quick,
-					"thorough" => Tier::Thorough,
+				_ => match std::env::var("VERIF_TIER").ok().as_deref() {
+					Some("thorough") => Tier::Thorough,
+					Some("quick") | None => Tier::Quick,
 					_ => usage(),
 				},
 			};
@@ -33,6 +34,7 @@ fn main() {
 				}
 			}
 		}
+		"explore-c15" => iref_verif::props::c15::explore(),
 		"replay" => {
 			if args.len() < 3 {
 				usage()
